@@ -108,6 +108,9 @@ fn navigate(ctx: &mut Ctx, label: &str, x: &dyn Introspect, rng: &mut Rng, seque
                 }
                 Ok(Ok(res)) => {
                     ctx.count("command_ok");
+                    if script.len() >= 4 && ctx.evaluations % 5003 < 40 {
+                        ctx.sample("navigation", J::obj(vec![("type", J::s(label)), ("child_limit", J::s(format!("{}", limit))), ("commands", J::Arr(script.iter().map(|c| J::s(c.clone())).collect())), ("frames", J::i(res.frames.len())), ("total_len", J::i(res.total_len()))]));
+                    }
                     ctx.distinct(&format!("{}|ok|frames{}|limit{}", label, res.frames.len().min(5), limit.min(9)));
                     let total = res.total_len();
                     let mut bad: Option<String> = None;
